@@ -8,6 +8,23 @@ VERIF = os.path.dirname(HERE)
 
 # id -> (technique, level text, level note, design ref)
 CHECKS = {
+    "C01": ("property-based differential testing (Hypothesis) against a finite-difference VJP oracle",
+            "Generated-input search over op x shapes x arguments x values x requires-grad subsets x upstream "
+            "gradients for all 26 tensor-op forms; each operand gradient is compared with central finite "
+            "differences (float64) of synapgrad's own forward contracted with g; max/min ties are checked for "
+            "subdifferential membership. Exploration: violations are found when a generated case hits them; "
+            "absence is not proven.",
+            "Trusts central differences with h=1e-6 on k/8 value grids (error <=1e-8 relative; tolerance 1e-5 / "
+            "2e-3 for float32) and that the forward is deterministic; forward-rejected cases are not judged here.",
+            "DESIGN.md 4/C01"),
+    "C05": ("property-based differential testing (Hypothesis) against independent NumPy reference models",
+            "Generated-input search over every tensor op, constructor and iteration pattern; results are compared "
+            "(shape exactly, values bit-exactly for data movement / to rounding for arithmetic) with an independent "
+            "NumPy float64 reference written from the NumPy/PyTorch definition, under an accept/reject protocol "
+            "(documented argument combinations must be accepted, others may raise but never answer differently).",
+            "Trusts NumPy as the definition of broadcasting/indexing and the transcribed PyTorch semantics of "
+            "squeeze/flatten/unfold/movedim in synverif/ops.py; the 1e-12 guard inside log is admitted by tolerance.",
+            "DESIGN.md 4/C05"),
     "C16": ("property-based differential + metamorphic testing (Hypothesis) with an enumerated geometry grid",
             "Generated-input search: the three im2col and three col2im implementations, extract_windows and "
             "place_windows are compared bit-wise against a brute-force loop reference, and the adjoint and "
